@@ -288,7 +288,7 @@ def run_case(rec, case):
             idle_noops(rec, w, V)
     finally:
         w.teardown()
-    if rec.evaluations % 157 == 0:
+    if rec.evaluations % 157 == 1:
         rec.sample(case)
 
 
